@@ -23,7 +23,8 @@ Contents
 * §2  the history `ops1` (10 operations on bounds (0, 1)) and its hypotheses for factor 1 and 2, nn 0 and 1;
 * §3  the exhibited values (`loss`, `askPoints`, tables, `Cand`);
 * §4  the theorems of C01 applied to the instance;
-* §5  C02;  §6  C10/C13 (Learner1D part);  §7  C11;  §8  C12.
+* §5  C02;  §5b a history whose batch does not contain the end points of the domain (`opsNoEnds`);
+  §6  C10/C13 (Learner1D part);  §7  C11;  §8  C12.
 -/
 set_option linter.unusedSectionVars false
 namespace L1D
@@ -33,16 +34,15 @@ namespace Ex
 section checker
 variable {α : Type} [Field α] [LinearOrder α] [IsStrictOrderedRing α]
 
-/-- Boolean version of `ValidOp` -/
+/-- Boolean version of `ValidOp` (points inside the bounds; no empty batch on the batch path).  Before the
+repair `fix: Learner1D.tell_many batch path shrank the x-scale to the range of the points` it also had to check
+that both end points of the domain were known, pending or in the batch; that proviso is gone. -/
 def validOpB (s : State α) : Op α → Bool
   | .tell x _ => decide (s.lo ≤ x) && decide (x ≤ s.hi)
   | .tellPending x => decide (s.lo ≤ x) && decide (x ≤ s.hi)
   | .tellMany pts force =>
       pts.all (fun kv => decide (s.lo ≤ kv.1) && decide (kv.1 ≤ s.hi)) &&
-      (!(force || (decide (s.data.length < 2 * pts.length) && decide (2 < pts.length))) ||
-        ((hasData s s.lo || decide (s.lo ∈ s.pending) || pts.any (fun kv => decide (kv.1 = s.lo))) &&
-         (hasData s s.hi || decide (s.hi ∈ s.pending) || pts.any (fun kv => decide (kv.1 = s.hi))) &&
-         !pts.isEmpty))
+      (!(force || (decide (s.data.length < 2 * pts.length) && decide (2 < pts.length))) || !pts.isEmpty)
   | .removeUnfinished => true
   | .ask _ _ => true
 
@@ -54,29 +54,18 @@ theorem validOp_of_B {s : State α} {op : Op α} (h : validOpB s op = true) : Va
   | ask n c => trivial
   | tellMany pts force =>
     simp only [validOpB, Bool.and_eq_true, List.all_eq_true, decide_eq_true_eq, Bool.or_eq_true,
-      Bool.not_eq_true', List.any_eq_true] at h
+      Bool.not_eq_true'] at h
     obtain ⟨h1, h2⟩ := h
     refine ⟨fun kv hkv => h1 kv hkv, ?_⟩
     intro hb
-    rcases h2 with h2 | ⟨⟨hlo, hhi⟩, hne⟩
+    rcases h2 with h2 | hne
     · exfalso
       rcases hb with hb | ⟨hb1, hb2⟩
       · simp [hb] at h2
       · simp [hb1, hb2] at h2
-    · refine ⟨?_, ?_⟩
-      · intro b hb'
-        rcases hb' with rfl | rfl
-        · rcases hlo with (hlo | hlo) | ⟨kv, hkv, e⟩
-          · exact Or.inl hlo
-          · exact Or.inr (Or.inl hlo)
-          · exact Or.inr (Or.inr ⟨kv, hkv, e⟩)
-        · rcases hhi with (hhi | hhi) | ⟨kv, hkv, e⟩
-          · exact Or.inl hhi
-          · exact Or.inr (Or.inl hhi)
-          · exact Or.inr (Or.inr ⟨kv, hkv, e⟩)
-      · intro e
-        rw [e] at hne
-        simp at hne
+    · intro e
+      rw [e] at hne
+      simp at hne
 
 variable (lossFn : List (Option α) → List (Option (List α)) → Loss α) (r12 : α → α)
 
@@ -280,11 +269,16 @@ theorem valid_s_2 : ValidOps slopeLoss id (init 0 1 2 0 0) ops1 := validOps_of_B
 theorem valid2_s_1 : ValidOps slopeLoss id (init 0 1 1 0 0) ops2 := validOps_of_B _ _ (by decide +kernel)
 theorem valid2_s_2 : ValidOps slopeLoss id (init 0 1 2 0 0) ops2 := validOps_of_B _ _ (by decide +kernel)
 
-/-- the checker is not trivially true: a point outside the bounds, and a forced batch that lacks an end point,
-are rejected -/
+/-- the checker is not trivially true: a point outside the bounds (single or in a batch) and a forced empty batch
+are rejected … -/
 example : validOpsB uniformLoss id (init 0 1 1 0 0) [.tell 2 [0]] = false := by decide +kernel
-example : validOpsB uniformLoss id (init 0 1 1 0 0) [.tellMany [(0, [0]), (1/2, [1])] true] = false := by
+example : validOpsB uniformLoss id (init 0 1 1 0 0) [.tellMany [(0, [0]), (3/2, [1])] true] = false := by
   decide +kernel
+example : validOpsB uniformLoss id (init 0 1 1 0 0) [.tellMany [] true] = false := by decide +kernel
+/-- … whereas a forced batch that lacks an end point of the domain — rejected before the repair
+`fix: Learner1D.tell_many batch path shrank the x-scale to the range of the points` — is valid now -/
+example : ValidOps uniformLoss id (init 0 1 1 0 0) [.tellMany [(0, [0]), (1/2, [1])] true] :=
+  validOps_of_B _ _ (by decide +kernel)
 
 /-! ### `missingBounds = []`, `pairs xs ≠ []` -/
 theorem mb_u_1 : missingBounds (st uniformLoss 1 0 ops1) = [] := by decide +kernel
@@ -583,6 +577,78 @@ example := c02_allocation_optimal widthLoss id mono_id lt01 2 0 0 ops1 valid_w_2
   (allNonneg_of_B (by decide +kernel))
 example : (st widthLoss 2 0 ops1).lossesC = (st uniformLoss 2 0 ops1).lossesC := by decide +kernel
 
+/-! ## §5b  a history whose batch does NOT contain the end points of the domain
+
+Bounds (0, 10): a FORCED `tell_many` of the interior points 2, 3, 4 in an empty learner (batch path; neither end
+point known, pending or in the batch), then `tell 8`, `tell_pending 9`, a committing `ask(3)`.  Before the repair
+`fix: Learner1D.tell_many batch path shrank the x-scale to the range of the points` this history was excluded by
+the end-point proviso of `ValidOp` — and rightly so: the batch set `scaleX = 2`, `tell 8` widened it to 6 and left
+stale entries.  It satisfies the new `ValidOps`, so C01.h–k, C02.a/d/g/h and C10 apply to it. -/
+
+def opsNoEnds : List (Op ℚ) :=
+  [.tellMany [(2, [0]), (3, [1]), (4, [4])] true, .tell 8 [2], .tellPending 9, .ask 3 true]
+
+theorem lt010 : (0 : ℚ) < 10 := by norm_num
+
+/-- the state reached on the bounds (0, 10) -/
+abbrev stN (lossFn : List (Option ℚ) → List (Option (List ℚ)) → Loss ℚ) (factor : ℚ) (nn : Nat)
+    (ops : List (Op ℚ)) : State ℚ :=
+  run lossFn id (init 0 10 factor 0 nn) ops
+
+theorem validNoEnds_1 : ValidOps slopeLoss id (init 0 10 1 0 0) opsNoEnds := validOps_of_B _ _ (by decide +kernel)
+theorem validNoEnds_2 : ValidOps slopeLoss id (init 0 10 2 0 0) opsNoEnds := validOps_of_B _ _ (by decide +kernel)
+theorem validNoEnds_u1 : ValidOps uniformLoss1 id (init 0 10 2 0 1) opsNoEnds := validOps_of_B _ _ (by decide +kernel)
+theorem noEnds_dim : ∀ op ∈ opsNoEnds, OpDim 1 op := opsDim_of_B (by decide +kernel)
+
+/-- the first operation takes the batch path, and when it is applied neither end point is known, pending, or in
+the batch -/
+example : step slopeLoss id (init 0 10 1 0 0) (.tellMany [(2, [0]), (3, [1]), (4, [4])] true) =
+    tellManyBatch slopeLoss id (init 0 10 1 0 0) [(2, [0]), (3, [1]), (4, [4])] := rfl
+example : missingBounds (stN slopeLoss 1 0 (opsNoEnds.take 3)) = [0, 10] := by decide +kernel
+/-- the x-scale bookkeeping is the domain's after the batch and at the end; the committing ask handed out the two
+end points first -/
+example : (stN slopeLoss 1 0 (opsNoEnds.take 1)).bboxX = (0, 10) ∧ (stN slopeLoss 1 0 (opsNoEnds.take 1)).scaleX = 10 ∧
+    (stN slopeLoss 1 0 (opsNoEnds.take 1)).lossScale = 10 := by decide +kernel
+example : (stN slopeLoss 1 0 opsNoEnds).bboxX = (0, 10) ∧ (stN slopeLoss 1 0 opsNoEnds).scaleX = 10 ∧
+    (stN slopeLoss 1 0 opsNoEnds).lossScale = 10 := by decide +kernel
+example : (stN slopeLoss 1 0 opsNoEnds).xs = [2, 3, 4, 8] ∧ (stN slopeLoss 1 0 opsNoEnds).xsC = [0, 2, 3, 7/2, 4, 8, 9, 10] ∧
+    missingBounds (stN slopeLoss 1 0 opsNoEnds) = [] := by decide +kernel
+
+/-- C01.h / C01.i / C01.j / C01.k on it (3 evaluated intervals) -/
+example := c01_values slopeLoss id lt010 2 0 0 1 opsNoEnds noEnds_dim validNoEnds_2
+example := c01_values uniformLoss1 id lt010 2 0 1 1 opsNoEnds noEnds_dim validNoEnds_u1
+example : ∀ iv ∈ pairs (stN slopeLoss 1 0 opsNoEnds).xs,
+    lget iv (stN slopeLoss 1 0 opsNoEnds).losses =
+      some (getLoss slopeLoss (stN slopeLoss 1 0 opsNoEnds) iv.1 iv.2) :=
+  c01_exact_when_factor_one slopeLoss id lt010 1 0 0 rfl 1 opsNoEnds noEnds_dim validNoEnds_1
+example := c01_loss_is_true_max slopeLoss id lt010 1 0 0 rfl 1 opsNoEnds validNoEnds_1 noEnds_dim
+  (by decide +kernel) (by decide +kernel)
+example := c01_loss_is_max_general slopeLoss id lt010 2 0 0 1 opsNoEnds validNoEnds_2 noEnds_dim
+  (by decide +kernel) (by decide +kernel)
+/-- the conclusion of C01.i evaluated on the interval whose entry was stale before the repair (cf. `ceState` in
+`Lemmas/L1DValues.lean`): stored = recomputed -/
+example : lget (2, 3) (stN slopeLoss 1 0 opsNoEnds).losses = some (.fin (13/80)) ∧
+    getLoss slopeLoss (stN slopeLoss 1 0 opsNoEnds) 2 3 = .fin (13/80) ∧
+    (pairs (stN slopeLoss 1 0 opsNoEnds).xs).length = 3 := by decide +kernel
+
+/-- C02.a / C02.d / C02.h on it -/
+example : (askPoints id (stN slopeLoss 2 0 opsNoEnds) 3).1.Nodup ∧
+    (∀ x ∈ (askPoints id (stN slopeLoss 2 0 opsNoEnds) 3).1, 0 ≤ x ∧ x ≤ 10 ∧ x ∉ (stN slopeLoss 2 0 opsNoEnds).xsC ∧
+      hasData (stN slopeLoss 2 0 opsNoEnds) x = false ∧ x ∉ (stN slopeLoss 2 0 opsNoEnds).pending) ∧
+    (askPoints id (stN slopeLoss 2 0 opsNoEnds) 3).1.length = 3 ∧
+    (askPoints id (stN slopeLoss 2 0 opsNoEnds) 3).2.length = 3 :=
+  c02_count_distinct_fresh slopeLoss id lt010 2 0 0 opsNoEnds validNoEnds_2 3
+example := c02_equal_parts slopeLoss id lt010 2 0 0 opsNoEnds validNoEnds_2 3 (by decide +kernel) (by decide +kernel)
+example := c02_allocation_optimal_nonneg slopeLoss id nonneg_slopeLoss mono_id lt010 2 0 0 opsNoEnds validNoEnds_2 3
+  (by decide +kernel)
+/-- … also in the state right after the batch (both end points still missing) -/
+example := c02_count_distinct_fresh slopeLoss id lt010 2 0 0 (opsNoEnds.take 1)
+  (validOps_of_B _ _ (by decide +kernel)) 5
+example : (askPoints id (stN slopeLoss 2 0 (opsNoEnds.take 1)) 5).1.length = 5 := by decide +kernel
+/-- C10 on it -/
+example := C10.l1d_asked_pending_until_told slopeLoss id lt010 2 0 0 (opsNoEnds.take 3)
+  (validOps_of_B _ _ (by decide +kernel)) 3
+
 /-! ## §6  C10 / C13, Learner1D part -/
 
 example : tell slopeLoss id (st slopeLoss 2 0 ops1) (1/4) [77] = st slopeLoss 2 0 ops1 :=
@@ -625,10 +691,21 @@ example : (run slopeLoss id (init 0 1 1 0 0) (ts₁.map tellOp)).losses =
     (run slopeLoss id (init 0 1 1 0 0) (ts₁.map tellOp)).data ≠
     (run slopeLoss id (init 0 1 1 0 0) (ts₂.map tellOp)).data := by decide +kernel
 
-/-- C11.d instantiated: the batch is valid (both end points among the results), forced and unforced -/
-theorem validBatch (f : Bool) : ValidOps slopeLoss id (init 0 1 1 0 0) [.tellMany ts₂ f] := by
-  cases f <;> exact validOps_of_B _ _ (by decide +kernel)
-example (f : Bool) := C11.l1d_batch_eq_single slopeLoss id lt01 0 0 1 f ts_perm ts_nodup ts_dim ts_in (validBatch f)
+/-- C11.d instantiated: forced and unforced (the only side condition left: a forced batch is not empty) -/
+theorem ts₂_ne : ts₂ ≠ [] := by decide
+example (f : Bool) := C11.l1d_batch_eq_single slopeLoss id lt01 0 0 1 f ts_perm ts_nodup ts_dim ts_in (fun _ => ts₂_ne)
+/-- C11.d on results that do NOT contain the end points of the domain (bounds (0, 10), points 2, 3, 4; forced, so
+the batch path is taken): excluded before the repair, covered now; the tables are equal and non-empty -/
+def tsI₁ : List (ℚ × List ℚ) := [(2, [0]), (3, [1]), (4, [4])]
+def tsI₂ : List (ℚ × List ℚ) := [(4, [4]), (2, [0]), (3, [1])]
+example : Agree slopeLoss id (run slopeLoss id (init 0 10 1 0 0) (tsI₁.map tellOp))
+    (run slopeLoss id (init 0 10 1 0 0) [.tellMany tsI₂ true]) :=
+  C11.l1d_batch_eq_single slopeLoss id (by norm_num) 0 0 1 true (by decide +kernel) (by decide +kernel)
+    (by decide +kernel) (by decide +kernel) (fun _ => by decide)
+example : (run slopeLoss id (init 0 10 1 0 0) (tsI₁.map tellOp)).losses =
+    (run slopeLoss id (init 0 10 1 0 0) [.tellMany tsI₂ true]).losses ∧
+    (run slopeLoss id (init 0 10 1 0 0) [.tellMany tsI₂ true]).losses.length = 2 ∧
+    (run slopeLoss id (init 0 10 1 0 0) [.tellMany tsI₂ true]).scaleX = 10 := by decide +kernel
 /-- the unforced call takes the batch path too (4 > 2 points, no data) -/
 example : tellMany slopeLoss id (init 0 1 1 0 0) ts₂ false = tellManyBatch slopeLoss id (init 0 1 1 0 0) ts₂ := by
   unfold tellMany
